@@ -200,13 +200,36 @@ func in(needle interface{}, array interface{}) bool {
 // range, a []int constant and an array literal holding the same numbers are
 // equal (as the language definition documents: 1..3 == [1, 2, 3]).
 func deepEqual(a, b interface{}) bool {
-	return deepEqualAt(a, b, 0)
+	return deepEqualSeen(a, b, nil)
 }
 
-func deepEqualAt(a, b interface{}, depth int) bool {
+// seenPair identifies a pair of sequences or maps under comparison, so that
+// values containing themselves are not compared forever (like
+// reflect.DeepEqual, a pair met again is taken to be equal).
+type seenPair struct {
+	a, b uintptr
+	n    int
+}
+
+func deepEqualSeen(a, b interface{}, seen map[seenPair]bool) bool {
 	va, vb := reflect.ValueOf(a), reflect.ValueOf(b)
 	isSeq := func(v reflect.Value) bool {
 		return v.Kind() == reflect.Slice || v.Kind() == reflect.Array
+	}
+	bothSeq := isSeq(va) && isSeq(vb)
+	bothMap := va.Kind() == reflect.Map && vb.Kind() == reflect.Map && va.Type().Key() == vb.Type().Key()
+	if !bothSeq && !bothMap {
+		return reflect.DeepEqual(a, b)
+	}
+	if (va.Kind() == reflect.Slice || va.Kind() == reflect.Map) && (vb.Kind() == reflect.Slice || vb.Kind() == reflect.Map) {
+		pair := seenPair{va.Pointer(), vb.Pointer(), va.Len()}
+		if seen[pair] {
+			return true
+		}
+		if seen == nil {
+			seen = make(map[seenPair]bool)
+		}
+		seen[pair] = true
 	}
 	// Elements are compared with equal(); sequences and maps nested in
 	// sequences or maps are compared the same way, whatever their Go types.
@@ -217,16 +240,11 @@ func deepEqualAt(a, b interface{}, depth int) bool {
 		xi, yi := x.Interface(), y.Interface()
 		vx, vy := reflect.ValueOf(xi), reflect.ValueOf(yi)
 		if (isSeq(vx) && isSeq(vy)) || (vx.Kind() == reflect.Map && vy.Kind() == reflect.Map) {
-			return deepEqualAt(xi, yi, depth+1), true
+			return deepEqualSeen(xi, yi, seen), true
 		}
 		return equal(xi, yi).(bool), true
 	}
-	if depth > 64 {
-		// Nested this deep a value may well contain itself:
-		// reflect.DeepEqual detects cycles.
-		return reflect.DeepEqual(a, b)
-	}
-	if isSeq(va) && isSeq(vb) {
+	if bothSeq {
 		if va.Len() != vb.Len() {
 			return false
 		}
@@ -241,26 +259,23 @@ func deepEqualAt(a, b interface{}, depth int) bool {
 		}
 		return true
 	}
-	if va.Kind() == reflect.Map && vb.Kind() == reflect.Map && va.Type().Key() == vb.Type().Key() {
-		if va.IsNil() != vb.IsNil() || va.Len() != vb.Len() {
+	if va.IsNil() != vb.IsNil() || va.Len() != vb.Len() {
+		return false
+	}
+	for _, k := range va.MapKeys() {
+		y := vb.MapIndex(k)
+		if !y.IsValid() {
 			return false
 		}
-		for _, k := range va.MapKeys() {
-			y := vb.MapIndex(k)
-			if !y.IsValid() {
-				return false
-			}
-			eq, ok := elemEqual(va.MapIndex(k), y)
-			if !ok {
-				return reflect.DeepEqual(a, b)
-			}
-			if !eq {
-				return false
-			}
+		eq, ok := elemEqual(va.MapIndex(k), y)
+		if !ok {
+			return reflect.DeepEqual(a, b)
 		}
-		return true
+		if !eq {
+			return false
+		}
 	}
-	return reflect.DeepEqual(a, b)
+	return true
 }
 
 func length(a interface{}) int {
